@@ -16,6 +16,7 @@ abstraction of _equ_to_xyz); tile corners / edge normals are the concrete double
 By induction over the levels the tile returned at depth d <= D contains the point within delta_d, where delta_1 = gamma and
 delta_{l+1} = 2 (delta_l + gamma) with gamma = 1e-12 (< 1e-9 for d <= 8).
 """
+from vlib.core import soft_attr as core_u
 import math
 import time
 
@@ -526,7 +527,7 @@ def pixel_branch(run, depth):
 
 
 def check(run):
-    run.uses(tt.toast_tile_for_point, tt._toast_tile_containment_score, tt._left_of_half_space_score, tt._div4, tt._create_level1_tiles, tt.generate_tiles)
+    run.uses(tt.toast_tile_for_point, core_u(tt, "_toast_tile_containment_score"), core_u(tt, "_left_of_half_space_score"), core_u(tt, "_div4"), core_u(tt, "_create_level1_tiles"), tt.generate_tiles)
     D = DEPTH[run.tier]
     run.bound(depth="inductive step executed from every tile of levels 1 .. %d (=> look-ups to depth %d); end-to-end nesting to depth 2" % (D - 1, D),
               point="every direction (X, Y, Z) (symbolic reals on the unit-cube surface), every longitude in [0, 2*pi] (+ 2*pi*m, |m| <= 8)",
